@@ -181,6 +181,9 @@ class World:
                 evs += [("S", b) for b in range(self.nb)]
             else:
                 evs.append(("S", None))
+            if self.spec.get("flood") and len(self.trials) < self.T:
+                # many workers asking for work before any result comes back: only suggests until T trials exist
+                return evs
         for t in sorted(run):
             if self.level[t] < self.script_end(t):
                 evs.append(("R", t))
